@@ -1,7 +1,7 @@
 """C01 Structural selection (segments, name/index/slice/wildcard) follows RFC 9535."""
 from __future__ import annotations
 
-from vlib import diff
+from vlib import lib, diff
 from vlib.gen import queries as Q
 from vlib.gen import values as V
 from vlib.hyp import drive, rng, st
@@ -22,10 +22,21 @@ LEVEL_NOTE = "Trusted: the reference evaluator and parser in vlib/ref (self-test
 NAMES = ["a", "b", "c", "d", "e", "0", "1", "-1", "a b", "", "'", "\u00e9", "\U0001F600", "_x", "A1"]
 
 
+
+def _with_interpreter_variants(specs, tier, n_small, extra=None):
+    """The same shard body in child interpreters started with other flags / environment variables."""
+    from vlib.runner import INTERPRETERS
+    base = dict(extra or {})
+    for name in INTERPRETERS:
+        s = dict(base, n=n_small if tier == "quick" else n_small * 6, interp=name)
+        specs.append(s)
+    return specs
+
+
 def plan(tier, seed):
     if tier == "quick":
-        return [{"n": 1000} for _ in range(16)]
-    return [{"n": 10000} for _ in range(16)]
+        return _with_interpreter_variants([{"n": 1000} for _ in range(16)], tier, 150)
+    return _with_interpreter_variants([{"n": 10000} for _ in range(16)], tier, 150)
 
 
 def examine(case):
@@ -45,18 +56,30 @@ def run_shard(spec, shard):
             case["exotic"] = r.randrange(1, 2**31)
         if r.random() < 0.08:
             case["alias"] = r.randrange(1, 2**31)
+        if r.random() < 0.04:
+            # the JSON text of the document is itself a JSON value (a string): it has no children
+            import json
+            case["doc"] = doc = r.choice([json.dumps(doc), json.dumps(doc, indent=1), "\n" + json.dumps(doc), json.dumps(doc).encode("utf-8").decode("latin-1")])
+            case.pop("exotic", None), case.pop("alias", None)
+        if r.random() < 0.05:
+            case["ambient"] = r.choice(lib.AMBIENTS[1:])
+        if r.random() < 0.08:
+            case["interrupted"] = r.randint(1, 90)
         f = examine(case)
         feats = Q.features(ast)
         from vlib.ref import evaluate as ev
         res = ev.find(ast, doc)
         nt = bool(res) and (len(ast[2]) >= 2 or "descendant" in feats or "multi-selector" in feats)
         classes = set(feats) | {"form:" + u for u in used if ":" not in u}
-        classes.add("root-object" if isinstance(doc, dict) else "root-array")
+        classes.add("root-object" if isinstance(doc, dict) else "root-array" if isinstance(doc, list) else "root-string-holding-json-text")
         if res:
             classes.add("non-empty")
             locs = [l for l, _ in res]
             if len(set(locs)) < len(locs):
                 classes.add("duplicates-in-result")
+        for k_ in ("interrupted", "ambient", "alias", "exotic"):
+            if k_ in case:
+                classes.add("variant:" + (k_ if k_ != "interrupted" else "first-application-interrupted-then-reapplied"))
         shard.case(key=(text, doc), nontrivial=nt, classes=classes,
                    sample={"q": text, "doc": doc, "result_len": len(res)})
         if f:
